@@ -12,6 +12,10 @@ use std::path::PathBuf;
 
 /// (rust package, service name, [(route name, kind)]) ; kind 0 unary, 1 server-streaming,
 /// 2 client-streaming, 3 bidi.  The Rust method name of method j is `m<j>`.
+/// The first `N_EMIT` entries are generated with `emit_package(true)` (through
+/// `manual::Builder`), the rest with `emit_package(false)` (through `CodeGenBuilder` directly;
+/// `manual::Builder` has no such switch): their Service-Name is the bare service name.
+const N_EMIT: usize = 14;
 const POOL: &[(&str, &str, &[(&str, u8)])] = &[
     ("a", "S", &[("M", 0), ("Mx", 0), ("m", 0), ("N", 1), ("CS", 2), ("BD", 3)]),
     ("a", "Sv", &[("M", 0), ("Mx", 1)]),
@@ -27,6 +31,9 @@ const POOL: &[(&str, &str, &[(&str, u8)])] = &[
     ("", "S_1", &[("M_1", 0), ("M", 0)]),
     ("a", "S1", &[("M", 0), ("M1", 0)]),
     ("a.S", "M", &[("M", 0)]),
+    ("pk", "E", &[("M", 0), ("N", 1), ("CS", 2), ("BD", 3)]),
+    ("a.b", "Svc2", &[("Do", 0), ("M", 1)]),
+    ("", "F", &[("M", 0)]),
 ];
 
 /// copy of tonic-build's private `naive_snake_case` (module names of the generated code)
@@ -68,8 +75,16 @@ fn main() {
         }
         let dir = out.join(format!("p{i}"));
         std::fs::create_dir_all(&dir).unwrap();
-        tonic_build::manual::Builder::new().out_dir(&dir).compile(&[sb.build()]);
         let file = dir.join(format!("{pkg}.{name}.rs"));
+        if i < N_EMIT {
+            tonic_build::manual::Builder::new().out_dir(&dir).compile(&[sb.build()]);
+        } else {
+            let svc = sb.build();
+            let mut b = tonic_build::CodeGenBuilder::new();
+            b.emit_package(false);
+            let code = format!("{}\n{}\n", b.generate_client(&svc, "super"), b.generate_server(&svc, "super"));
+            std::fs::write(&file, code).unwrap();
+        }
         writeln!(pool, "#[allow(non_camel_case_types, non_snake_case, unused_qualifications)]\npub mod p{i} {{ include!({:?}); }}", file.to_str().unwrap()).unwrap();
 
         // handler implementation of the generated trait
@@ -91,6 +106,20 @@ fn main() {
         writeln!(pool, "  ({pkg:?}, {name:?}, &{methods:?}),").unwrap();
     }
     writeln!(pool, "];").unwrap();
+    writeln!(pool, "/// generated with emit_package(true)?\npub const POOL_EMIT: &[bool] = &{:?};", (0..POOL.len()).map(|i| i < N_EMIT).collect::<Vec<_>>()).unwrap();
+    // one request straight into the generated server (no router in front)
+    writeln!(pool, "pub async fn direct_call(i: usize, h: {ty}::Handler, req: http::Request<tonic::body::Body>) -> http::Response<tonic::body::Body> {{\n use tower_service::Service as _;\n match i {{").unwrap();
+    for (i, (_, name, _)) in POOL.iter().enumerate() {
+        let sn = naive_snake_case(name);
+        writeln!(pool, "  {i} => p{i}::{sn}_server::{name}Server::new(h).call(req).await.unwrap(),").unwrap();
+    }
+    writeln!(pool, "  _ => panic!(\"pool index\") }} }}").unwrap();
+    // a concrete service type for `add_optional_service(None)`
+    {
+        let (_, name, _) = POOL[0];
+        let sn = naive_snake_case(name);
+        writeln!(pool, "pub type AnyServer = p0::{sn}_server::{name}Server<{ty}::Handler>;").unwrap();
+    }
     // the NAME the generated server advertises
     writeln!(pool, "pub fn advertised_name(i: usize) -> &'static str {{ match i {{").unwrap();
     for (i, (_, name, _)) in POOL.iter().enumerate() {
